@@ -34,6 +34,9 @@ BODIES = [
 ]
 # bodies that assign to nn need intent(inout); keep nn inout everywhere
 USES_K = {17}
+# bodies the reader canonicalises (array sections, WHERE -> loops, SELECT CASE ->
+# if blocks): their source skeleton is not comparable with the written one
+CANONICALISED = {8, 10, 11}
 USES_ROUTINES = {12}
 
 
